@@ -15,8 +15,9 @@ Spaces == {"", "stream", "foreign"}      \* no namespace | the stream's content 
 AttrIn == {"absent", "empty", "set"}
 (* argument forms: token reader, token reader + start element, xml.Marshaler value, *)
 (* xmlstream.Marshaler value, xmlstream.WriterTo value, each also with a start      *)
-(* element, and a token-writer session                                              *)
-Forms  == {"send", "sendel", "encode", "encode_m", "encode_wt", "encodeel", "encodeel_m", "encodeel_wt", "tw"}
+(* element, and a token-writer session - also one that calls Flush after every token *)
+(* (Flush is a transport matter: it changes nothing about what the element is)       *)
+Forms  == {"send", "sendel", "encode", "encode_m", "encode_wt", "encodeel", "encodeel_m", "encodeel_wt", "tw", "tw_flush"}
 WithStart(f) == f \in {"sendel", "encodeel", "encodeel_m", "encodeel_wt"}
 
 Inputs == [name : Names, space : Spaces, id : AttrIn, from : AttrIn, nested : BOOLEAN, s2s : BOOLEAN, form : Forms]
@@ -38,7 +39,8 @@ Complete(x) ==
                ELSE (CASE x.from = "set" -> {"same"} [] x.from = "empty" -> {"empty"} [] OTHER -> {"absent"}),
     outer  |-> IF WithStart(x.form) THEN "given" ELSE "own",   \* which start element is outermost
     nested |-> IF x.nested THEN "untouched" ELSE "none",       \* a stanza-named child is not completed
-    payload |-> "same" ]
+    payload |-> "same",
+    next   |-> "toplevel" ]   \* the element of the NEXT transmit call is a top-level element of its own, whole
 
 (* model-level sanity: completion is idempotent on what it controls *)
 Re(x, e) == [x EXCEPT !.space = IF IsStanza(x) THEN "stream" ELSE x.space,
@@ -54,7 +56,7 @@ ASSUME C05_CompleteIdempotent /\ C05_StanzaAlwaysIdentified
 ToSeqSet(S) == SetToSeq(S)
 Vec(x) == [in |-> x, exp |-> [count |-> 1, name |-> Complete(x).name, space |-> ToSeqSet(Complete(x).space),
                               id |-> ToSeqSet(Complete(x).id), from |-> ToSeqSet(Complete(x).from),
-                              outer |-> Complete(x).outer, nested |-> Complete(x).nested, payload |-> "same"]]
+                              outer |-> Complete(x).outer, nested |-> Complete(x).nested, payload |-> "same", next |-> Complete(x).next]]
 ASSUME ndJsonSerialize("transmit_vectors.ndjson", SetToSeq({Vec(x) : x \in Inputs}))
 ASSUME PrintT(<<"vectors", Cardinality(Inputs)>>)
 
